@@ -88,6 +88,12 @@ def check_case(ctx, cfg, seed):
     # restore: factor workers hold the saved factors (+ second-order data when asked)
     if cfg.ops[ci] in ('l1', 'l0'):
         for r in range(W_):
+            fb = rr.res[r]['ops'][ci].get('file_backed')
+            if fb:
+                ctx.fail(f'rank {r}: after the load the factors of layers {sorted(set(fb))} are memory-mapped views of the checkpoint files; '
+                         'the next save into the directory rewrites those files under the preconditioner', case, 'neox-restore-file-backed')
+                return
+        for r in range(W_):
             res = rr.res[r]
             rec = res['ops'][ci]
             for l, (name, fw) in enumerate(zip(res['names'], res['fw'])):
